@@ -208,11 +208,16 @@ static std::string run_history(const HistSpec &h, bool *nontriv) {
           for (int i = 0; i < n; ++i) t.push_back(static_cast<char>(tg.next()));
           int64_t trem = -1;
           DecodeResult tr = decode_with(fresh, t, &trem);
-          if (tr.status.ok() != fr.status.ok()) {
+          if (tr.status.ok() != fr.status.ok() && stream_matches_f19[op.b % streams.size()] && !fr.status.ok()) {
+            // known finding F19: the decoder's `num_faces > remaining_size / 3` guard rejects this stream on its own and
+            // lets it pass when enough bytes follow it - same root cause, reported by C01's probe
+            count("excluded_F19_stream_decodes_only_with_trailing_bytes");
+          } else if (tr.status.ok() != fr.status.ok()) {
             return at + "the stream alone " + (fr.status.ok() ? "decodes" : "fails to decode") + " but with " + std::to_string(n) + " trailing bytes it " +
                    (tr.status.ok() ? "decodes" : "fails to decode");
           }
-          if (digest_of(tr) != digest_of(fr)) return at + "decoding depends on bytes that follow the stream";
+          const bool f19_pair = tr.status.ok() != fr.status.ok();  // (only the exempted F19 case gets here with a mismatch)
+          if (!f19_pair && digest_of(tr) != digest_of(fr)) return at + "decoding depends on bytes that follow the stream";
           if (tr.status.ok() && trem != n) return at + "with " + std::to_string(n) + " trailing bytes the decoder leaves " + std::to_string(trem) + " bytes unconsumed";
           count("trailing_byte_decodes");
         }
